@@ -140,8 +140,13 @@ def search(ctx, budget):
                 ctx.fail("C20:batch-vs-single:sobol", f"quasirandom_sobol({s + i},{d}) != row {i} of quasirandom_sobol_batch({s},{s + k},{d})",
                          {"kind": "window", "s": s, "k": k, "d": d})
                 break
-        if not np.array_equal(quasirandom(k + 1, d, method="sobol", seed=s), B):
-            ctx.fail("C20:frontend", f"quasirandom({k + 1},{d},seed={s}) != batch", {"kind": "window", "s": s, "k": k, "d": d})
+        try:
+            F = quasirandom(k + 1, d, method="sobol", seed=s)
+        except BaseException as ex:  # noqa  (a wrong seed window can ask for an absurd allocation)
+            F = f"raised {type(ex).__name__}"
+        if isinstance(F, str) or not np.array_equal(F, B):
+            ctx.fail("C20:frontend", f"quasirandom({k + 1},{d},seed={s}) != the {k + 1} points of seeds {s}..{s + k}"
+                     + (f" ({F})" if isinstance(F, str) else f" (shape {np.shape(F)})"), {"kind": "window", "s": s, "k": k, "d": d})
     # (3) Korobov
     for _ in range(150 if not full else 3000):
         s = rng.randint(1, 10**6)
@@ -155,7 +160,11 @@ def search(ctx, budget):
             if not np.array_equal(quasirandom_kgf(s + i, d), B[i]):
                 ctx.fail("C20:batch-vs-single:kgf", f"quasirandom_kgf({s + i},{d}) != row {i} of quasirandom_kgf_batch({s},{s + k},{d})", {"kind": "kgf", "s": s, "k": k, "d": d})
                 break
-        if not np.array_equal(quasirandom(k + 1, d, method="kgf", seed=s), B) or not np.array_equal(quasirandom(d, method="kgf", seed=s), quasirandom_kgf(s, d)):
+        try:
+            okf = np.array_equal(quasirandom(k + 1, d, method="kgf", seed=s), B) and np.array_equal(quasirandom(d, method="kgf", seed=s), quasirandom_kgf(s, d))
+        except BaseException:  # noqa
+            okf = False
+        if not okf:
             ctx.fail("C20:frontend-kgf", f"quasirandom front end disagrees with the kgf generators for seed {s}", {"kind": "kgf", "s": s, "k": k, "d": d})
 
 
